@@ -507,3 +507,26 @@ func JSONLastMarshal() []byte { return nil }
 
 // JSONLastArg returns the value json.Marshal was last called with (executor only).
 func JSONLastArg() interface{} { return nil }
+
+// Fires returns the number of timer expirations so far; FireNo the expiration that started the calling
+// timer-callback thread (0 elsewhere); TimersArmed the number of armed timers (executor only).
+func Fires() int       { return 0 }
+func FireNo() int      { return 0 }
+func TimersArmed() int { return 0 }
+
+// RunTimer fires one armed timer at an arbitrary instant not before its deadline and runs its callback to
+// completion on the calling thread; it reports whether a timer was armed (executor only, manual-timer mode).
+func RunTimer() bool { return false }
+
+func endTimerCallback() {}
+
+// runTimerCallback is the frame the executor pushes for RunTimer.
+func runTimerCallback(f func()) bool {
+	defer endTimerCallback()
+	f()
+	return true
+}
+
+// FiresChecked returns the number of timer callbacks that have already performed their first
+// synchronisation operation, i.e. whose expiry check has begun (executor only).
+func FiresChecked() int { return 0 }
